@@ -3,6 +3,7 @@
 import math
 from fractions import Fraction
 
+import random
 from ..core import Case, err_name, HarnessError
 from ..seqcheck import SeqProp
 
@@ -184,7 +185,12 @@ class Prop(SeqProp):
                         steps.append(("items", []))
                     else:
                         steps.append(("len", []))
-            yield self.mk(kind, steps)
+            c = self.mk(kind, steps)
+            # how the initial collection is handed over (list / tuple / one-shot iterator / builtin set or dict / an object
+            # of the class itself that lives on and is changed behind the new object's back)
+            c.meta["form"] = rng.randrange(6)
+            c.meta["donor_seed"] = rng.randrange(1 << 30)
+            yield c
 
     # ---- implementation ------------------------------------------------------------------------------------------------
     @staticmethod
@@ -198,6 +204,43 @@ class Prop(SeqProp):
         kind = case.meta["kind"]
         obj = SortedSet() if kind == "sset" else SortedMap()
         out = []
+        form = case.meta.get("form", 0)
+        donor = [None, None]  # the object the initial collection came from, and what it must still contain
+        drng = random.Random(case.meta.get("donor_seed", 0))
+
+        def poke_donor():
+            """the source object of a copy-construction goes on living: it is changed here, which must not show in `obj`"""
+            d, ref = donor
+            if d is None:
+                return
+            k = POOL[drng.randrange(len(POOL))]
+            r = drng.random()
+            if kind == "sset":
+                if r < 0.5:
+                    d.add(k); ref.add(frac(k))
+                elif r < 0.8:
+                    d.discard(k); ref.discard(frac(k))
+                elif r < 0.9 and len(d):
+                    ref.discard(frac(d.pop()))
+                else:
+                    d.clear(); ref.clear()
+            else:
+                if r < 0.5:
+                    d[k] = ("donor", r); ref[frac(k)] = ("donor", r)
+                elif r < 0.8:
+                    d.pop(k, None); ref.pop(frac(k), None)
+                elif r < 0.9 and len(d):
+                    kk, _ = d.popitem(); ref.pop(frac(kk), None)
+                else:
+                    d.clear(); ref.clear()
+
+        def donor_ok():
+            d, ref = donor
+            if d is None:
+                return True
+            if kind == "sset":
+                return [frac(x) for x in d] == sorted(ref)
+            return [(frac(k), v) for k, v in d.items()] == sorted(ref.items())
 
         def r_of(x):
             try:
@@ -214,7 +257,28 @@ class Prop(SeqProp):
             try:
                 if kind == "sset":
                     if op == "init":
-                        obj = SortedSet([self.val(a) for a in args]); r = "ok"
+                        vals = [self.val(a) for a in args]
+                        if form == 1:
+                            obj = SortedSet(tuple(vals))
+                        elif form == 2:
+                            obj = SortedSet(iter(vals))
+                        elif form == 3:
+                            obj = SortedSet(x for x in vals)
+                        elif form == 4:
+                            obj = SortedSet(vals)
+                            if vals:
+                                src = set()
+                                for x in vals:
+                                    if not any(frac(x) == frac(y) for y in src):
+                                        src.add(x)
+                                obj = SortedSet(src)
+                        elif form == 5:
+                            d = SortedSet(vals)
+                            obj = SortedSet(d)
+                            donor[0], donor[1] = d, {frac(x) for x in vals}
+                        else:
+                            obj = SortedSet(vals)
+                        r = "ok"
                     elif op == "add":
                         obj.add(self.val(args[0])); r = "ok"
                     elif op == "discard":
@@ -235,7 +299,17 @@ class Prop(SeqProp):
                     if op == "init":
                         pairs = [(self.val(args[i]), pyv(args[i + 1])) for i in range(0, len(args), 2)]
                         # alternate between the two initialiser forms the constructor accepts
-                        obj = SortedMap(dict(pairs)) if len(pairs) % 2 == 1 else SortedMap(pairs); r = "ok"
+                        if form == 5:
+                            d = SortedMap(pairs)
+                            obj = SortedMap(d)
+                            donor[0], donor[1] = d, {frac(k): v for k, v in dict(pairs).items()}
+                        elif form == 4:
+                            obj = SortedMap(iter(pairs))
+                        elif form == 3:
+                            obj = SortedMap(tuple(pairs))
+                        else:
+                            obj = SortedMap(dict(pairs)) if len(pairs) % 2 == 1 else SortedMap(pairs)
+                        r = "ok"
                     elif op == "get":
                         r = f"ret {codev(obj[self.val(args[0])])}"
                     elif op == "has":
@@ -262,7 +336,11 @@ class Prop(SeqProp):
                 if isinstance(e, (KeyboardInterrupt, SystemExit)):
                     raise
                 r = f"err {err_name(e)}"
+            if op != "init" and donor[0] is not None and drng.random() < 0.5:
+                poke_donor()
             out.append(r if r == "bad-op" else r + " " + dump())
+            if not donor_ok():
+                out[-1] = "source-object-of-the-copy-construction-changed " + out[-1]
         return out
 
     # ---- oracle: builtin set / dict over ranks ----------------------------------------------------------------------------
@@ -273,6 +351,9 @@ class Prop(SeqProp):
             a = [("f" if isinstance(x, str) else rk(POOL[x])) for x in args] if kind == "sset" or op in ("get", "has", "del", "pop") \
                 else None
             exp = "ok"
+            if line.startswith("source-object-of"):
+                return (f"op {i} {op}: the object the initial values were copied from no longer behaves like its own "
+                        f"set / dict after the copy was used: {line[:200]!r}")
             if kind == "sset":
                 if op == "init":
                     ref = set(a)
@@ -297,7 +378,10 @@ class Prop(SeqProp):
                 elif op == "clear":
                     ref = set()
                 res, _, dump = line.rpartition(" L:")
-                got = [int(x) for x in dump.split(",")] if dump else []
+                try:
+                    got = [int(x) for x in dump.split(",")] if dump else []
+                except ValueError:
+                    return f"op {i} {op} {a}: content {dump[:200]!r} holds values that were never added to this set"
                 if exp is None:
                     if not res.startswith("ret ") or int(res[4:]) not in ref:
                         return f"op {i} {op}: pop returned {res!r}, not an element of {sorted(ref)}"
@@ -345,8 +429,11 @@ class Prop(SeqProp):
                     exp = "ret " + ",".join(f"{k}:{v}" for k, v in sorted(ref.items()))
                 res, _, dump = line.partition(" K:")
                 ks, _, vs = dump.partition(" V:")
-                gotk = [int(x) for x in ks.split(",")] if ks else []
-                gotv = [int(x) for x in vs.split(",")] if vs else []
+                try:
+                    gotk = [int(x) for x in ks.split(",")] if ks else []
+                    gotv = [int(x) for x in vs.split(",")] if vs else []
+                except ValueError:
+                    return f"op {i} {op} {args}: content {dump[:200]!r} holds keys or values that were never stored in this map"
                 if exp is None:
                     try:
                         k, v = (int(x) for x in res[4:].split(":"))
@@ -381,7 +468,7 @@ class Prop(SeqProp):
         pairs = list(zip(case.ops, case.meta["impl"]))
 
         def fails(ps):
-            c = Case([p[0] for p in ps], {"kind": case.meta["kind"], "impl": [p[1] for p in ps]}, case.label)
+            c = Case([p[0] for p in ps], dict(case.meta, impl=[p[1] for p in ps]), case.label)
             impl = self.safe_impl(c)
             model = self.run_model([c])[0]
             if not self.valid(c, model, impl):
@@ -389,4 +476,4 @@ class Prop(SeqProp):
             return pred(c, model, impl)
 
         ps = core.ddmin(pairs, fails)
-        return Case([p[0] for p in ps], {"kind": case.meta["kind"], "impl": [p[1] for p in ps]}, case.label + " (shrunk)")
+        return Case([p[0] for p in ps], dict(case.meta, impl=[p[1] for p in ps]), case.label + " (shrunk)")
